@@ -29,47 +29,79 @@ func loopConfigs(thorough bool, faults bool) []*loop.Config {
 			bf = 2
 		}
 	}
-	add := func(name string, opt loop.Opt, ts []loop.T, shards []loop.Seed) {
-		out = append(out, &loop.Config{Name: name, Opt: opt, Targets: ts, Shards: shards, BudgetW: bw, BudgetF: bf})
+	// quick keeps the searches whose state spaces close within the per-change budget; thorough adds the rest
+	add := func(inQuick bool, name string, opt loop.Opt, ts []loop.T, shards []loop.Seed) {
+		if inQuick || thorough {
+			out = append(out, &loop.Config{Name: name, Opt: opt, Targets: ts, Shards: shards, BudgetW: bw, BudgetF: bf, DownAsFault: faults})
+		}
+	}
+	// a target that goes down for good (still discovered) at any moment: its own budget, no workload events
+	addDown := func(inQuick bool, name string, opt loop.Opt, ts []loop.T, shards []loop.Seed) {
+		if (inQuick || thorough) && !faults {
+			out = append(out, &loop.Config{Name: name + "+target-goes-down", Opt: opt, Targets: ts, Shards: shards, BudgetW: 0, BudgetD: 1})
+		}
 	}
 	abc := []loop.T{tg(1, 30, 30, true), tg(2, 30, 30, true), tg(3, 60, 60, true)}
 	ab := []loop.T{tg(1, 30, 30, true), tg(2, 60, 60, true)}
 	for _, idle := range []int64{0, 3600} {
 		for _, head := range []int64{0, 100} {
-			if head != 0 && !thorough && idle != 0 {
-				continue
-			}
 			o := loop.Opt{MaxHead: head, MaxProc: 100, MaxShard: 4, MinShard: 0, IdleSec: idle}
 			tag := fmt.Sprintf("idle=%d,head=%d", idle, head)
-			add("fresh-1-shard/"+tag, o, ab, []loop.Seed{{}})
-			add("overloaded-shard/"+tag, o, abc, []loop.Seed{{1: "", 2: "", 3: ""}, {}})
-			add("duplicate/"+tag, o, ab, []loop.Seed{{1: "", 2: ""}, {1: ""}})
-			add("pending-transfer/"+tag, o, ab, []loop.Seed{{1: "in_transfer", 2: ""}, {1: ""}})
-			if thorough || faults {
-				add("orphan-in-transfer/"+tag, o, ab, []loop.Seed{{1: "in_transfer"}, {2: ""}})
-				add("spread-3-shards/"+tag, o, ab, []loop.Seed{{1: ""}, {2: ""}, {}})
+			base := head == 0 && idle == 0
+			add(head == 0, "fresh-1-shard/"+tag, o, ab, []loop.Seed{{}})
+			add(head == 0 && (idle == 0 || !faults), "overloaded-shard/"+tag, o, abc, []loop.Seed{{1: "", 2: "", 3: ""}, {}})
+			add(base, "duplicate/"+tag, o, ab, []loop.Seed{{1: "", 2: ""}, {1: ""}})
+			add(base, "pending-transfer/"+tag, o, ab, []loop.Seed{{1: "in_transfer", 2: ""}, {1: ""}})
+			add(base, "double-in-transfer/"+tag, o, ab, []loop.Seed{{1: "in_transfer", 2: ""}, {1: "in_transfer"}})
+			if head == 0 {
+				addDown(base, "overloaded-shard/"+tag, o, abc, []loop.Seed{{1: "", 2: "", 3: ""}, {}})
+				addDown(base, "duplicate/"+tag, o, ab, []loop.Seed{{1: "", 2: ""}, {1: ""}})
+				addDown(base, "pending-transfer/"+tag, o, ab, []loop.Seed{{1: "in_transfer", 2: ""}, {1: ""}})
 			}
+			add(false, "orphan-in-transfer/"+tag, o, ab, []loop.Seed{{1: "in_transfer"}, {2: ""}})
+			add(false, "spread-3-shards/"+tag, o, ab, []loop.Seed{{1: ""}, {2: ""}, {}})
 		}
 	}
 	if thorough && !faults {
 		o := loop.Opt{MaxHead: 0, MaxProc: 100, MaxShard: 4, MinShard: 2, IdleSec: 3600}
-		add("min-2/three-targets", o, abc, []loop.Seed{{1: ""}, {2: "", 3: ""}, {}})
+		add(false, "min-2/three-targets", o, abc, []loop.Seed{{1: ""}, {2: "", 3: ""}, {}})
 		o2 := loop.Opt{MaxHead: 0, MaxProc: 100, MaxShard: 2, MinShard: 0, IdleSec: 0}
-		add("max-2/needs-3", o2, []loop.T{tg(1, 60, 60, true), tg(2, 60, 60, true), tg(3, 60, 60, true)}, []loop.Seed{{}})
+		add(false, "max-2/needs-3", o2, []loop.T{tg(1, 60, 60, true), tg(2, 60, 60, true), tg(3, 60, 60, true)}, []loop.Seed{{}})
 		o3 := loop.Opt{MaxHead: 0, MaxProc: 100, MaxShard: 4, MinShard: 0, IdleSec: 3600}
-		add("fat-total+oversized", o3, []loop.T{tg(1, 10, 70, true), tg(2, 30, 30, true), tg(3, 10, 150, true)}, []loop.Seed{{}})
-		add("late-target", o3, []loop.T{tg(1, 60, 60, true), tg(2, 60, 60, false)}, []loop.Seed{{1: ""}})
+		add(false, "fat-total+oversized", o3, []loop.T{tg(1, 10, 70, true), tg(2, 30, 30, true), tg(3, 10, 150, true)}, []loop.Seed{{}})
+		add(false, "late-target", o3, []loop.T{tg(1, 60, 60, true), tg(2, 60, 60, false)}, []loop.Seed{{1: ""}})
 	}
 	return out
 }
 
 func runLoopCheck(c *chk.Ctx, prop string, faults bool) {
+	runLoopConfigs(c, prop, loopConfigs(c.Thorough(), faults), false)
+}
+
+// c05LoopConfigs: a move in progress or about to start, with cycles that run while a scrape is in flight.
+func c05LoopConfigs(thorough bool) []*loop.Config {
+	var out []*loop.Config
+	ab := []loop.T{tg(1, 30, 30, true), tg(2, 60, 60, true)}
+	abc := []loop.T{tg(1, 30, 30, true), tg(2, 30, 30, true), tg(3, 60, 60, true)}
+	for _, idle := range []int64{0, 3600} {
+		o := loop.Opt{MaxHead: 0, MaxProc: 100, MaxShard: 3, MinShard: 0, IdleSec: idle}
+		tag := fmt.Sprintf("idle=%d", idle)
+		d := 0
+		if thorough {
+			d = 1
+		}
+		out = append(out, &loop.Config{Name: "move-pending/" + tag, Opt: o, Targets: ab, Shards: []loop.Seed{{1: "in_transfer", 2: ""}, {1: ""}}, Inflight: true, BudgetD: d})
+		out = append(out, &loop.Config{Name: "move-about-to-start/" + tag, Opt: o, Targets: abc, Shards: []loop.Seed{{1: "", 2: "", 3: ""}, {}}, Inflight: true, BudgetD: d})
+	}
+	return out
+}
+
+func runLoopConfigs(c *chk.Ctx, prop string, cfgs []*loop.Config, handover bool) {
 	r := c.R
-	cfgs := loopConfigs(c.Thorough(), faults)
 	dir := loopScratch(c, "loop-"+prop)
 	os.MkdirAll(dir, 0o755)
 	defer os.RemoveAll(dir)
-	p := loopParams{prop: prop, stateCap: 60000, maxRounds: 12, handover: true}
+	p := loopParams{prop: prop, stateCap: 60000, maxRounds: 12, handover: handover}
 	if c.Thorough() {
 		p.stateCap = 400000
 	}
